@@ -91,7 +91,14 @@ class SimFS(object):
         self.root.nlink = 1
         self.mounts = {}                 # normalised dir path -> dev
         self.dev_free = {}               # dev -> remaining bytes or absent (= unlimited)
-        self.cwd = SIM_ROOT + '/cwd'
+        self._cwd = SIM_ROOT + '/cwd'
+
+    @property
+    def cwd(self):
+        # the working directory belongs to the simulated process that is running (only one runs
+        # at a time, on its own thread); the environment and the oracles use the default
+        p = current_proc()
+        return getattr(p, 'cwd', None) or self._cwd
 
     # -- helpers ---------------------------------------------------------------------
     def _new_inode(self, dev, kind, mode):
